@@ -50,9 +50,12 @@ def new_run(rng, tier):
         src = 'corelang'
         cfg['steps'] = min(cfg['steps'], 8)
     else:
-        spec = gen_spec(rng, {'bias_noreach_chain': 0.6, 'max_types': 6,
-                              'p_extends': 0.75, 'transitive': False,
+        deep = tier == 'thorough' and rng.random() < 0.4
+        spec = gen_spec(rng, {'bias_noreach_chain': 0.6, 'max_types': 9 if deep else 6,
+                              'p_extends': 0.85 if deep else 0.75, 'transitive': False,
                               'max_assocs': 3, 'expr_depth': 1})
+        if deep:
+            cfg['steps'] = rng.randint(30, 90)
         if not spec['associations']:
             # classes cannot be generated for a language without associations
             spec['associations'].append(
@@ -61,7 +64,15 @@ def new_run(rng, tier):
                  'rightAsset': spec['assets'][0]['name'], 'rightField': 'lnkB',
                  'rightMultiplicity': {'min': 0, 'max': None}})
         src = 'gen'
-    return cfg, {'spec': spec, 'source': src}
+    desc = {'spec': spec, 'source': src}
+    if src == 'gen' and rng.random() < 0.35:
+        # a second, different language that lives in the same process and (the
+        # generator draws from one pool of names) shares asset type names with the first
+        other = gen_spec(rng, {'bias_noreach_chain': 0.5, 'max_types': 5, 'p_extends': 0.7,
+                               'transitive': False, 'max_assocs': 2, 'expr_depth': 1})
+        if other['associations']:
+            desc['other_spec'] = other
+    return cfg, desc
 
 
 def _norm_answer(attrs: dict) -> dict:
@@ -89,6 +100,8 @@ class World(BaseWorld):
         self.factories = {}
         self.lookups = []
         self.nops = 0
+        self.cur = 0
+        self.unis = [None, None]
         if desc.get('source') == 'corelang':
             self.count('probe:corelang')
         # probe: the C03 shape
@@ -105,6 +118,37 @@ class World(BaseWorld):
             raise SetupRejected('langgraph:' + o.exc_name())
         self.lgs.append(o.value)
         self._check_spec('construct LanguageGraph')
+        if desc.get('other_spec'):
+            self._save_uni(0)
+            # build the second universe with the same code paths
+            o2 = desc['other_spec']
+            self.S0 = canon(o2)
+            self.L = Lang(copy.deepcopy(o2))
+            self.spec = copy.deepcopy(o2)
+            self.expected = {t: {n: _norm_answer(st) for n, st in self.L.steps(t).items()}
+                             for t in self.L.order}
+            self.first, self.lgs, self.factories, self.lookups = {}, [], {}, []
+            o = call(LanguageGraph, self.spec)
+            if o.raised:
+                self._check_spec('construct LanguageGraph (second language)')
+                raise SetupRejected('langgraph:' + o.exc_name())
+            self.lgs.append(o.value)
+            self._check_spec('construct LanguageGraph (second language)')
+            self._save_uni(1)
+            self._load_uni(0)
+            self.count('probe:two_languages_in_one_process')
+            if set(self.unis[0]['L'].order) & set(self.unis[1]['L'].order):
+                self.count('probe:two_languages_share_type_names')
+
+    _UNI_KEYS = ('S0', 'L', 'spec', 'expected', 'first', 'lgs', 'factories', 'lookups')
+
+    def _save_uni(self, u):
+        self.unis[u] = {k: getattr(self, k) for k in self._UNI_KEYS}
+
+    def _load_uni(self, u):
+        for k, v in self.unis[u].items():
+            setattr(self, k, v)
+        self.cur = u
 
     def _has_shape(self):
         n = 0
@@ -153,6 +197,19 @@ class World(BaseWorld):
         table = [(40, 'lookup'), (8, 'regen'), (8, 'new_lg'), (6, 'new_factory'),
                  (14, 'gen_ag'), (4, 'save_spec')]
         kind = weighted(rng, table)
+        u = 0
+        if self.unis[1] is not None and rng.random() < 0.3:
+            u = 1
+        if self.unis[1] is not None:
+            self._save_uni(self.cur)
+            self._load_uni(u)
+        op = self._gen_op_in(rng, kind)
+        if u:
+            op['u'] = 1
+        return op
+
+    def _gen_op_in(self, rng, kind):
+        types = self.L.order
         lg = rng.randrange(len(self.lgs))
         if kind == 'lookup':
             # bias: repeat the last type, or visit a sibling right after it
@@ -219,6 +276,25 @@ class World(BaseWorld):
         m.add_association(assoc)
 
     def apply(self, op):
+        u = op.get('u', 0)
+        if u and self.unis[1] is None:
+            raise Unresolvable()
+        if self.unis[1] is not None:
+            self._save_uni(self.cur)
+            self._load_uni(u)
+        ev = self._apply_in(op)
+        if self.unis[1] is not None:
+            # the *other* language's specification must be untouched as well
+            self._save_uni(self.cur)
+            other = self.unis[1 - u]
+            self.count('oracle:C03.spec_unchanged')
+            if canon(other['spec']) != other['S0']:
+                raise Violation('C03.spec_unchanged',
+                                f'an operation on one language modified the specification of '
+                                f'another language loaded in the same process (after {op["op"]})')
+        return ev
+
+    def _apply_in(self, op):
         kind = op['op']
         self.nops += 1
         self.count('op:' + kind)
